@@ -14,7 +14,7 @@ import time
 import zipfile
 
 from harness.common import Ck, coq_list, coq_str, coq_bytes, parse_coq_N_list
-from translate import c19_walk
+from translate import c19_walk, c19_state
 
 MANIFEST = dict(
     technique='Rocq proof (backends as translated operation lists refining one folded-name map for every query string; walk_folder exactness for the sound folder forms; RawFileSystem lookup/walk from its translated operations; chain first-match / priority / prefix / de-duplication laws; every public lookup form of a chain - [], in, _get_file, _file_exists, open_bin, open_str, the bytes read, walk_folder, iter - equal to one specification function for members of any backend kind; the VPK content expression and the container reader FileInfo.read() as translated expressions that return the stored bytes in every placement) + fail-closed ast translator working on a canonical form of filesys.py / vpk.py (semantic normalisation, 15 rewrite rules, the rewritten module is executed and compared with the real one on every run) ; round 4: the property as one statement (c19_property: source_ok cfg -> property_holds cfg, instantiated at the generated configuration on every run), add_sys over whole histories of calls with its early-return guard translated, the names RawFileSystem.walk_folder lists as a translated shape, the walk of chains with directory members from a member interface, subfolder prefixes and folder arguments in any spelling without "..") + instance obligations and two groups of instance theorems at the generated configuration + vm_compute correspondence over the four real backends and chains + differential oracle (every call into the implementation under an alarm: a hang or an unexpected exception is a violation with its input)',
@@ -152,6 +152,26 @@ Qed.
 Print Assumptions today_chain_walk_any_spelling.
 '''
 
+STATE_IMPORTS = ['Coq.Lists.List', 'Coq.Bool.Bool', 'SV.SM.FsChain', 'SV.SM.FsState', 'SV.Gen.FsState_gen']
+TODAY_CENSUS = ('{| sc_chain := chain_census; sc_virtual := virtual_census; sc_raw := raw_census; sc_zip := zip_census; '
+                'sc_vpk := vpk_census; sc_helpers := helpers_census; sc_vpk_reader := vpk_reader_census |}')
+STATE_SHORTS = ('chain', 'virtual', 'raw', 'zip', 'vpk')
+# needs only Gen/FsState_gen.v: it is checked also when the shape translator (FsWalk_gen) fails closed
+INSTANCE_THEOREM_STATE = '''Import ListNotations.
+Definition today_census : state_census := TODAY_CENSUS.
+(* on today's source histories of walks (complete or given up), lookups, add_sys calls and edits of `systems` do not
+   change what a call answers *)
+Theorem today_histories_irrelevant : histories_irrelevant today_census.
+Proof. apply c19_property_over_histories with (s := witness_cfg); [exact (proj1 c19_property_over_histories_hypotheses_satisfiable)|vm_compute; reflexivity]. Qed.
+Print Assumptions today_histories_irrelevant.
+Theorem today_vpk_walk_history : forall b fs h folder,
+  walk_after file (walk b fs) (fun s => s) (discipline_of (cs_walk vpk_census)) h folder = walk b fs folder.
+Proof. intros. apply c19_backend_walk_history. vm_compute. reflexivity. Qed.
+Theorem today_chain_lookup_history : forall ms h q,
+  chain_lookup_after (lookup_discipline_of (cs_lookup chain_census)) ms h q = chain_get (members_after ms h) q.
+Proof. intros. apply c19_chain_lookup_history. vm_compute. reflexivity. Qed.
+'''.replace('TODAY_CENSUS', TODAY_CENSUS)
+
 INSTANCE_THEOREM_FORMS = '''Import ListNotations.
 Definition gen_xmember (m : xmember) : Prop :=
   exists b fs p, In b [virtual_cfg; zip_cfg; vpk_cfg] /\\ m = xmember_of b fs p /\\ clean_fs fs = true.
@@ -260,6 +280,12 @@ Theorem today_c19_property : property_holds today_cfg.
 Proof. apply c19_property. vm_compute. reflexivity. Qed.
 Print Assumptions today_c19_property.
 '''.replace('TODAY_CFG', TODAY_CFG)
+# ... and over programs (needs both generated files)
+INSTANCE_THEOREM_FORMS_STATE = '''
+Theorem today_c19_property_over_histories : property_holds today_cfg /\\ histories_irrelevant TODAY_CENSUS.
+Proof. apply c19_property_over_histories; vm_compute; reflexivity. Qed.
+Print Assumptions today_c19_property_over_histories.
+'''.replace('TODAY_CENSUS', TODAY_CENSUS)
 
 BACKENDS = ['virtual', 'zip', 'vpk', 'raw']
 FOLDERS = ['mat', 'materials', 'Materials', 'sub', 'Sub', 'a', 'A', 'deep', 'models', '.git', 'maps']
@@ -1991,9 +2017,29 @@ def run(ck: Ck) -> None:
     ck.assumptions.append('walk composition theorems: member prefixes and the folder argument spell an empty or clean relative path (redundant separators and "." segments allowed, either slash, any case; no ".."); for directory members the folder is cleanly spelt and exact (every stored file below it up to case lies below it exactly)')
     root = str(ck.scratch)
     _ta = time.time()
+    ok_s = ck.translate('FsState_gen', c19_state.translate)
     ok_t = ck.translate('FsWalk_gen', c19_walk.translate)
-    built = ok_t and ck.build(['Props/C19.vo', 'Gen/FsWalk_gen.vo'])
+    # the census of stores is generated, built and judged also when the shape translator fails closed
+    built_any = (ok_t or ok_s) and ck.build(['Props/C19.vo'] + (['Gen/FsWalk_gen.vo'] if ok_t else []) + (['Gen/FsState_gen.vo'] if ok_s else []))
+    built = bool(ok_t and built_any)
+    built_s = bool(ok_s and built_any)
     _tb = time.time()
+    failed_state: list[str] = []
+    fut_state = None
+    if built_s:
+        from concurrent.futures import ThreadPoolExecutor as _TPE
+        spool = _TPE(max_workers=1)
+        fut_state = spool.submit(ck.coq_scratch, ''.join(f'Require Import {i}.\n' for i in STATE_IMPORTS + ['SV.SM.FsStateProofs', 'SV.SM.FsChainProperty', 'SV.SM.FsChainPropertyProofs', 'SV.Props.C19'])
+                                 + INSTANCE_THEOREM_STATE, 'inst_state', 300)
+        sobs = {}
+        for short in STATE_SHORTS:
+            sobs[f'{short}_walks_keep_no_state'] = f'walk_keeps_no_state {short}_census'
+            sobs[f'{short}_lookups_keep_no_state'] = f'lookups_keep_no_state {short}_census'
+        sobs['filesys_helpers_keep_no_state'] = 'census_clean helpers_census'
+        sobs['vpk_reader_keeps_no_state'] = 'census_clean vpk_reader_census'
+        sobs['census_hypothesis_holds_for_the_generated_census'] = f'state_ok {TODAY_CENSUS}'
+        failed_state = [oname for oname, ok in ck.instance_obligations(STATE_IMPORTS, sobs, 'inst_state_obs').items() if not ok]
+        ck.extra['state_census_stores'] = ck.extra.get('translated', {}).get('FsState_gen', {}).get('stores', {})
     if built:
         # the two instance theorems are checked by their own coqc processes while the main thread goes on
         from concurrent.futures import ThreadPoolExecutor
@@ -2001,8 +2047,9 @@ def run(ck: Ck) -> None:
         fut_thm = pool.submit(ck.theorems, 'Props/C19.v')      # Print Assumptions of every theorem (its obligations are moved to the front below)
         fut_compose = pool.submit(ck.coq_scratch, ''.join(f'Require Import {i}.\n' for i in IMPORTS + ['SV.SM.FsChainProofs', 'SV.SM.FsChainCompose', 'SV.SM.FsChainFormsProofs', 'SV.SM.FsChainWhole', 'SV.SM.FsChainAdd', 'SV.SM.FsChainWalkGen', 'SV.SM.FsChainNoise', 'SV.Props.C19'])
                                   + INSTANCE_THEOREM, 'inst_compose', 300)
-        fut_forms = pool.submit(ck.coq_scratch, ''.join(f'Require Import {i}.\n' for i in IMPORTS + ['SV.SM.FsChainProofs', 'SV.SM.FsChainCompose', 'SV.SM.FsChainFormsProofs', 'SV.SM.FsChainWhole', 'SV.SM.FsChainReadProofs', 'SV.SM.FsChainMixed', 'SV.SM.FsChainAdd', 'SV.SM.FsChainProperty', 'SV.Props.C19'])
-                                + INSTANCE_THEOREM_FORMS, 'inst_forms', 300)
+        fut_forms = pool.submit(ck.coq_scratch, ''.join(f'Require Import {i}.\n' for i in IMPORTS + ['SV.SM.FsChainProofs', 'SV.SM.FsChainCompose', 'SV.SM.FsChainFormsProofs', 'SV.SM.FsChainWhole', 'SV.SM.FsChainReadProofs', 'SV.SM.FsChainMixed', 'SV.SM.FsChainAdd', 'SV.SM.FsChainProperty', 'SV.Props.C19']
+                                                                                                         + (['SV.SM.FsState', 'SV.SM.FsStateProofs', 'SV.Gen.FsState_gen'] if built_s else []))
+                                + INSTANCE_THEOREM_FORMS + (INSTANCE_THEOREM_FORMS_STATE if built_s else ''), 'inst_forms', 300)
         _tc = time.time()
         obs = {}
         for short, cfg in (('virtual', 'virtual_cfg'), ('zip', 'zip_cfg'), ('vpk', 'vpk_cfg')):
@@ -2074,6 +2121,8 @@ def run(ck: Ck) -> None:
             ck.obligation('translate:canonical-form-is-equivalent', False, f'executing filesys.py / its canonical form did not finish ({e})')
             ck.tie_broken.append('canonical form of filesys.py: execution did not finish')
         ck.extra.setdefault('stage_seconds', {})['canonical_validation'] = round(_t.time() - t3, 1)
+    for oname in failed_state:
+        ck.tie_broken.append(f'instance obligation {oname} does not hold at the generated census')
     if built:
         # a decisive code shape is not the sound one: the *search* runs on the escalated budgets (the correspondence
         # cases were built above on the normal ones: they validate the model, they are not what finds the input)
@@ -2099,10 +2148,27 @@ def run(ck: Ck) -> None:
         pool.shutdown()
         ck.extra['stage_seconds']['theorems_wait'] = round(time.time() - _te, 1)
         ck.obligations.sort(key=lambda o: 0 if o['name'].startswith(('theorem:', 'assumptions:')) else 1)     # stable: fixed order
+    if fut_state is not None:
+        rc, out = fut_state.result()
+        spool.shutdown()
+        ck.obligation('instance-theorem:histories_irrelevant', rc == 0,
+                      'c19_property_over_histories (second conjunct), c19_backend_walk_history and c19_chain_lookup_history at the generated census of stores '
+                      '(chain_census, virtual_census, raw_census, zip_census, vpk_census, helpers_census, vpk_reader_census)' + ('' if rc == 0 else ': ' + out[-400:]))
     keys = {v['key'] for v in ck.violations}
 
     def any_key(*subs):
         return any(all(s in k for s in sub.split('&')) for k in keys for sub in subs)
+    # the census of stores: a method that keeps state shows as a history-dependent answer of that backend / of chains
+    for short in STATE_SHORTS:
+        pats = ('chain-',) if short == 'chain' else (f'walk-{short}-', f'lookup-{short}-', f'content-{short}', f'chain-walk-&{short}')
+        if any_key(*pats):
+            ck.explain(f'instance:{short}_walks_keep_no_state')
+            ck.explain(f'instance:{short}_lookups_keep_no_state')
+    if keys:
+        ck.explain('instance:filesys_helpers_keep_no_state')
+        ck.explain('instance:vpk_reader_keeps_no_state')
+        ck.explain('instance:census_hypothesis_holds_for_the_generated_census')
+        ck.explain('instance-theorem:histories_irrelevant')
     # failed instance obligations are explained by concrete violations of the matching class
     if any_key('walk-virtual-root-folder-incomplete'):
         ck.explain('instance:virtual_walk_root_is_not_dot')
@@ -2143,7 +2209,7 @@ def run(ck: Ck) -> None:
     terr = next((o['detail'] for o in ck.obligations if o['name'].startswith('translate:') and not o['ok']), '')
     for subs, pats in ((('FileSystemChain._file_exists', '__contains__'), ('chain-contains-', 'chain-file_exists-')),
                        (('FileSystemChain.open_bin', 'FileSystemChain.open_str'), ('chain-open_bin-', 'chain-open_str-', 'chain-file_open_str-')),
-                       (('_get_file:', '__getitem__'), ('chain-get-', 'chain-get_file-')),
+                       (('_get_file:', '__getitem__'), ('chain-get-', 'chain-get_file-', 'chain-stale-after-systems-edit')),
                        (('walk_folder_repeat', 'FileSystemChain.walk_folder', 'walk_folder:', '__iter__'), ('chain-walk-', 'chain-iter-')),
                        (('add_sys',), ('chain-get-not-first-match', 'chain-walk-', 'chain-contains-', 'chain-open_bin-', 'chain-mounted-')),
                        (('VPKFileSystem.open', 'content expression', 'content helper', 'FileInfo.read'), ('content-vpk',))):
